@@ -1042,7 +1042,8 @@ def classify_render(case, paras, clause, detail):
 def check(run):
     rng = random.Random(run.seed * 7919 + 9)
     thorough = run.tier == 'thorough'
-    common.prove(run, 'C09', ['model/C09Line.vo', 'model/C09Spec.vo', 'model/C09Judge.vo', 'model/C09Align.vo', 'model/C09Float.vo'])
+    common.prove(run, 'C09', ['model/C09Line.vo', 'model/C09Spec.vo', 'model/C09Judge.vo', 'model/C09Align.vo', 'model/C09Float.vo',
+                            'model/C09InlineBlock.vo', 'proofs/C09_gen_inline_block.vo', 'proofs/C09_gen_justify.vo'])
     run.trusted += ['Coq 8.16.1 kernel (coqc); vm_compute for the cases.v evaluation',
                     'harness/p_c09.py: case generators, Coq printers, the Python judge of the render monitor',
                     'harness/impl_c09.py: direct-call stubs (real computed style + four-attribute context; stub boxes '
@@ -1070,6 +1071,9 @@ def check(run):
     run.stream_info('float-lines', wall_s=round(t5 - t4, 1))
     stream_avoid(run, rng, 6000 if thorough else 800)
     run.stream_info('avoid-direct', wall_s=round(time.time() - t5, 1))
+    t6 = time.time()
+    stream_ibw(run, random.Random(run.seed * 104729 + 13), 3000 if thorough else 600)
+    run.stream_info('ibw-direct', wall_s=round(time.time() - t6, 1))
     run.stream_info('pango-G', wall_s=round(t1 - t0, 1))
     run.stream_info('sfl-direct', wall_s=round(t2 - t1, 1))
     run.stream_info('align-direct', wall_s=round(t3 - t2, 1))
@@ -1195,6 +1199,71 @@ def stream_align(run, rng, n):
     run.stream_info('align-direct', rule='stub line boxes: 1..4 children (text boxes with 0..4 spaces / nbsp, atomic boxes, '
                     'nested inline boxes), rational widths, every text-align x text-align-last x direction x white-space, '
                     'available width below/equal/above the line width')
+
+
+PRE_IB = ('From Coq Require Import ZArith QArith List String.\nRequire Import WV.model.C09InlineBlock.\n'
+          'Import ListNotations.\n')
+
+
+def gen_ibw_case(rng):
+    def q():
+        return Fraction(rng.randint(0, 40), rng.choice([1, 1, 2, 3]))
+    sp = [q() if rng.random() < 0.7 else Fraction(0) for _ in range(6)]
+    if rng.random() < 0.2:
+        sp[rng.randrange(2)] = -q()          # negative margins
+    pmin = Fraction(rng.randint(0, 120), rng.choice([1, 2]))
+    pref = pmin + Fraction(rng.randint(0, 200), rng.choice([1, 3]))
+    r = rng.random()
+    total = sum(sp)
+    cbw = (total + pmin if r < 0.1 else total + pref if r < 0.2 else total + pmin - q() if r < 0.35
+           else total + pmin + (pref - pmin) * Fraction(rng.randint(0, 8), 8) if r < 0.6
+           else Fraction(rng.randint(0, 600), rng.choice([1, 3])))
+    width = 'auto' if rng.random() < 0.7 else str(Fraction(rng.randint(0, 300), rng.choice([1, 2])))
+    return dict(width=width, cbw=str(cbw), sp=[str(v) for v in sp], pmin=str(pmin), pref=str(pref))
+
+
+def coq_ibw_case(c, o):
+    w = 'None' if c['width'] == 'auto' else '(Some %s)' % qlit(Fraction(c['width']))
+    return '(%s, %s, mk_hspace %s, %s, %s, %s)' % (
+        w, qlit(Fraction(c['cbw'])), ' '.join(qlit(Fraction(v)) for v in c['sp']), qlit(Fraction(c['pmin'])),
+        qlit(Fraction(c['pref'])), qlit(Fraction(o[0])))
+
+
+def stream_ibw(run, rng, n):
+    cases = [gen_ibw_case(rng) for _ in range(n)]
+    outs = common.run_impl('impl_c09', 'ibw', cases, chunksize=64)
+    coq, kept = [], []
+    for c, (st, o) in zip(cases, outs):
+        if st != 'ok':
+            run.fail('inline_block_width raised', {'stream': 'ibw-direct', 'case': c, 'outcome': o}, signature='ibw-raise')
+            continue
+        coq.append(coq_ibw_case(c, o)); kept.append((c, o))
+    try:
+        masks = common.eval_cases('c09ibw', PRE_IB, 'ib_case', coq, 'ib_judge')
+    except RuntimeError as exc:
+        run.oblige('corr:ibw-direct', False, str(exc))
+        return
+    mism = [(c, o) for (c, o), m in zip(kept, masks) if m & 1 or not o[1]]
+    run.oblige('corr:ibw-direct(ib_width model vs inline_block_width of inline.py on stub boxes)', not mism,
+               'first disagreements: %s' % mism[:2])
+    for (c, o), m in zip(kept, masks):
+        if m & 1:
+            run.fail('inline-block width is not the shrink-to-fit width for the containing block minus margins, '
+                     'borders and paddings (auto) / the given width', {'stream': 'ibw-direct', 'case': c, 'impl_output': o})
+        elif m & 2:
+            run.fail('auto-width inline-block overflows its containing block although its minimum content width fits',
+                     {'stream': 'ibw-direct', 'case': c, 'impl_output': o})
+        elif not o[1]:
+            run.fail('inline_block_width changed something other than box.width',
+                     {'stream': 'ibw-direct', 'case': c, 'impl_output': o})
+
+    def room(c):
+        a = Fraction(c['cbw']) - sum(Fraction(v) for v in c['sp'])
+        return 'below-min' if a < Fraction(c['pmin']) else 'above-pref' if a > Fraction(c['pref']) else 'between'
+    run.count('ibw-direct', len(kept), [(c['width'] == 'auto', room(c)) for c, _ in kept],
+              samples=[{'case': kept[0][0], 'impl': kept[0][1]}] if kept else [])
+    run.stream_info('ibw-direct', rule='stub boxes with rational margins (some negative) / borders / paddings, width auto '
+                    'or given, containing block below / at / between / above the preferred minimum and preferred widths')
 
 
 def stream_render(run, rng, n):
@@ -1405,6 +1474,15 @@ def replay(data):
         m = common.eval_cases('c09replay', PRE, 'align_case', [coq_align_case(c, o)], 'align_judge')
         print('judge mask', m)
         return 1 if m[0] else 0
+    if stream == 'ibw-direct':
+        c = d['case']
+        (st, o), = common.run_impl('impl_c09', 'ibw', [c])
+        if st != 'ok':
+            print('replay: raised', o)
+            return 1
+        m = common.eval_cases('c09replay', PRE_IB, 'ib_case', [coq_ibw_case(c, o)], 'ib_judge')
+        print('replay: implementation ->', o, 'judge mask', m)
+        return 1 if m[0] or not o[1] else 0
     if stream == 'pango-G':
         c = d['case']
         (st, o), = common.run_impl('impl_c09', 'raw', [c])
